@@ -74,6 +74,8 @@ impl<K: Clone + PartialEq + Eq + Hash + std::fmt::Debug + std::cmp::PartialOrd, 
             let res = self.__pop_lru(&mut r);
 
             if let Some(val) = res {
+                #[cfg(feature = "verif-hooks")]
+                VERIF_EVICTIONS.with(|c| c.set(c.get() + 1));
                 log::warn!(
                     "lru cache eviction, type {} dirty {}",
                     crate::helpers::qcow2_type_of(&val.1),
@@ -208,6 +210,17 @@ impl<K: Clone + PartialEq + Eq + Hash + std::fmt::Debug + std::cmp::PartialOrd, 
 #[cfg(feature = "verif-hooks")]
 thread_local! {
     static VERIF_TICKS: std::cell::Cell<u64> = const { std::cell::Cell::new(u64::MAX) };
+}
+
+#[cfg(feature = "verif-hooks")]
+thread_local! {
+    static VERIF_EVICTIONS: std::cell::Cell<u64> = const { std::cell::Cell::new(0) };
+}
+
+/// verif-hooks: number of cache entries evicted so far on the current thread
+#[cfg(feature = "verif-hooks")]
+pub fn verif_evictions() -> u64 {
+    VERIF_EVICTIONS.with(|c| c.get())
 }
 
 /// verif-hooks: set how many cache lookups the current thread may still perform before a
